@@ -1,11 +1,12 @@
 // govc:pkg .
-// govc:bound 160 random arithmetic expressions of depth <= 3 over columns and literals (parenthesised exactly where precedence requires), each as a SELECT item (EmitSync) and inside a WHERE comparison, over 8 rows whose columns a,b,c are int or float64 (no NULL, no zero divisor)
+// govc:bound 160 (thorough: 800) random arithmetic expressions of depth <= 3 over columns and literals (parenthesised exactly where precedence requires), each as a SELECT item (EmitSync) and inside a WHERE comparison, over 8 rows whose columns a,b,c are int or float64 (no NULL, no zero divisor)
 // Bounded stand-in (NOT a proof) for what the kernels under contract do not reach: the choice between the internal
 // evaluators and expr-lang. On NULL-free rows every path must give the value of ordinary arithmetic with SQL
 // precedence; in WHERE the row is kept iff the comparison is true.
 package streamsql
 
 import (
+	"os"
 	"fmt"
 	"math"
 	"math/rand"
@@ -107,7 +108,11 @@ func TestGovcBounded_expression_values(t *testing.T) {
 	cases, fails := 0, 0
 	seen := map[string]bool{}
 	var exprs []govcExpr
-	for len(exprs) < 160 {
+	nexpr := 160
+	if os.Getenv("GOVC_BOUND") == "thorough" {
+		nexpr = 800
+	}
+	for len(exprs) < nexpr {
 		e := govcGenExpr(rng, 3)
 		if seen[e.sql] || !strings.ContainsAny(e.sql, "abc") || topOp(e.sql) == "" {
 			continue
